@@ -233,6 +233,7 @@ properties:
           type: array
           items:
             type: object
+            additionalProperties: false
             required:
               - expression
               - name
@@ -334,6 +335,7 @@ properties:
           type: array
           items:
             type: object
+            additionalProperties: false
             required:
               - expression
               - name
@@ -452,10 +454,35 @@ properties:
     type: array
     items:
       type: object
+      additionalProperties: false
+      properties:
+        name: {}
+        crontab: {}
+        allowFailure: {}
   onKubernetesEvent:
     type: array
     items:
       type: object
+      additionalProperties: false
+      properties:
+        name: {}
+        event: {}
+        kind: {}
+        selector:
+          type: object
+          additionalProperties: false
+          properties:
+            matchLabels: {}
+            matchExpressions: {}
+        objectName: {}
+        namespaceSelector:
+          type: object
+          additionalProperties: false
+          properties:
+            matchNames: {}
+            any: {}
+        jqFilter: {}
+        allowFailure: {}
 `,
 }
 
